@@ -3,7 +3,7 @@
 (* files over a pool of file kinds (text diffs with known counts, binary,   *)
 (* empty, absent, unparsable; with no / custom / stale pre-existing stats): *)
 (*   Exact, Additive, Idempotent, NonDestructive                            *)
-EXTENDS Integers, Sequences, TLC, Stats
+EXTENDS Integers, Sequences, TLC, Json, Stats
 VARIABLES t, gen1, gen2      \* t: tree; gen1 = GenAll(t); gen2 = GenAll(gen1)  (computed once per state)
 NoTables == [none |-> [enc |-> [x \in {} |-> <<>>], dec |-> [x \in {} |-> 0]]]
 JStr(s) == [t |-> "str", s |-> s, n |-> 0, neg |-> FALSE, items |-> <<>>]
@@ -40,6 +40,9 @@ Next == UNCHANGED <<t, gen1, gen2>>
 Spec == Init /\ [][Next]_<<t, gen1, gen2>>
 Tree == [meta |-> t.meta, changes |-> [i \in 1..Len(t.changes) |-> StripExp(t.changes[i])]]
 G == gen1
+(* Direction A: every tree of this space is also built with the real object model *)
+Emit == PrintT(<<"BEH", ToJson(Tree)>>)
+
 Exact == \A i \in 1..Len(t.changes) : \A j \in 1..Len(t.changes[i].files) :
            LET f == t.changes[i].files[j]  g == G.changes[i].files[j] IN
            IF f.exp.an THEN /\ Reported(g.meta, K_ins) = f.exp.ins /\ Reported(g.meta, K_del) = f.exp.del
